@@ -17,8 +17,35 @@ DIRS = {"L": 0, "R": 1, "N": 2}
 # over `k` tapes; DTM/NTM views exist when k == 1.
 
 
-def rand_table(rng, k=1, nondet=False, names=None, profile=None):
-    """Random machine description (dict with states/finals/symbols/table...)."""
+NASTY = ["\n", "\t", "$", "(", "\\", "*", ";", "[", "|", "?", "\r", "'"]
+
+
+def translate_symbols(md, mapping):
+    """The same machine with every tape symbol c written mapping[c] (a bijection on the tape alphabet)."""
+    t = lambda c: mapping[c]
+    table = {q: {tuple(t(c) for c in key): [(a[0], tuple((t(w), d) for w, d in a[1])) for a in alts]
+                 for key, alts in row.items()} for q, row in md["table"].items()}
+    return dict(md, input_symbols="".join(t(c) for c in md["input_symbols"]),
+                tape_symbols="".join(sorted(t(c) for c in md["tape_symbols"])), blank=t(md["blank"]), table=table)
+
+
+def rand_table(rng, k=1, nondet=False, names=None, profile=None, twin=None, nasty=None):
+    """Random machine description (dict with states/finals/symbols/table...).  twin: the second alternative of an entry
+    repeats the first one's writes and moves with another target state (two branches that differ in the state only);
+    nasty: tape symbols are control characters and punctuation (newline, tab, backslash, ...)."""
+    if twin is None:
+        twin = nondet and rng.random() < 0.3
+    if nasty is None:
+        nasty = rng.random() < 0.15
+    md = _rand_table(rng, k, nondet, names, profile, twin)
+    if nasty:
+        pool = NASTY[:]
+        rng.shuffle(pool)
+        md = translate_symbols(md, dict(zip(md["tape_symbols"], pool)))
+    return md
+
+
+def _rand_table(rng, k, nondet, names, profile, twin):
     inp = rng.choice(["a", "ab", "ab", "01"])
     blank = rng.choice([".", ".", "#", " "])
     extra = rng.choice(["", "x", "x"])
@@ -49,6 +76,8 @@ def rand_table(rng, k=1, nondet=False, names=None, profile=None):
             alts = [alt()]
             if rng.random() < p_two:
                 a2 = alt()
+                if twin:
+                    a2 = (rng.choice(work + fins if rng.random() < 0.2 else work), alts[0][1])
                 if a2 != alts[0]:
                     alts.append(a2)
             row[key] = alts
